@@ -178,7 +178,9 @@ impl WindowType<f64> for Ident {
 pub mod iter {
     use super::*;
 
-    /// first phase is 0; every sampled phase lies in [0, 1); all channels carry the window value
+    /// first phase is 0, on all channels, and the phase step is 1/(n-1).  (Later phases pass through
+    /// the float `%` operator, which this Kani/CBMC evaluates to 0.0 for every operand pair -
+    /// measured - so nothing is asserted about them here; see lib/phase_smt.py.)
     #[kani::proof]
     #[kani::unwind(6)]
     pub fn window_phases() {
@@ -187,11 +189,7 @@ pub mod iter {
         let mut w: Window<[f64; 2], Ident> = Window::new(n);
         let f0 = w.next().unwrap();
         assert!(f0[0] == 0.0 && f0[1] == 0.0, "a window starts at phase 0");
-        for _ in 0..3 {
-            let f = w.next().unwrap();
-            assert!(f[0] >= 0.0 && f[0] < 1.0 && f[1] == f[0], "phases stay in [0, 1)");
-        }
-        // the phase step handed to the phase accumulator is 1/(n-1)
+        assert!(w.next().is_some(), "a window never ends");
         let mut step_sig = dasp_signal::rate(n as f64 - 1.0).const_hz(1.0);
         assert!(step_sig.next() == 1.0 / (n as f64 - 1.0));
         kani::cover!(true, "end");
@@ -343,9 +341,6 @@ pub mod schedule {
         let mut chunk = wr.next().unwrap();
         let got = chunk.next().unwrap();
         assert!(got[0] == 0.0 && got[1] == 0.0);
-        let got1 = chunk.next().unwrap();
-        // |frame * w| <= |frame| for w in [0, 1)
-        assert!(got1[0].abs() <= data[1][0].abs() && got1[1].abs() <= data[1][1].abs());
         kani::cover!(true, "end");
     }
 }
